@@ -430,6 +430,20 @@ const PROBES: &[(&str, &str)] = &[
         "def Box : VType = data | +Box : Int64 * Int64 end that\n\
          let b = (+Box(4, 5) : Box) in match b | +Box(x, y) => ! (process/exit) y end",
     ),
+    // alias patterns `(p; q)`: both bind the same value
+    (
+        "alias-pattern-in-let",
+        "let (a; b) = (4 : Int64) in do s <- ! (int64/add) a b; ! (process/exit) s",
+    ),
+    (
+        "alias-pattern-of-a-pair-in-fn",
+        "(fn ((whole; (x, y)) : Int64 * Int64) => let (p, q) = whole in do s <- ! (int64/add) x q; ! (process/exit) s) (4, 5)",
+    ),
+    (
+        "alias-pattern-in-match-arm",
+        "def Opt : VType = data | +None : Unit | +Some : Int64 end that\n\
+         let o = (+Some(4) : Opt) in match o | +None() => ! (process/exit) 1 | +Some((a; b)) => do s <- ! (int64/add) a b; ! (process/exit) s end",
+    ),
     // structural data / codata types equal up to the order of their arms: tags are positions
     (
         "structural-data-permuted-arms",
